@@ -10,7 +10,10 @@
                  worker waits is lost, the loop repeats it)
      submitter:  select_active_pu: try-lock pu mutex; if state <= suspended(running): push to this
                  PU's queue, unlock; else try the other PU (always running here)
-   Variant "resume_notifies_once" notifies a single time.                                    *)
+   Variant "resume_notifies_once" notifies a single time.
+   Variant "suspend_returns_in_pre_sleep": the suspend call does not wait for the worker to leave
+   pre_sleep (pool-level suspend marks the PUs first, the per-PU call then finds "not running" and
+   returns at once: seeded change C19-2); a resume that follows finds nobody sleeping.       *)
 EXTENDS Naturals, FiniteSets
 CONSTANTS NTasks, Variant
 VARIABLES state, mtx, queue, otherq, wpc, waiting, spc, rpc, subpc, submitted, ran
@@ -24,7 +27,7 @@ SLock == spc = "start" /\ mtx = "free" /\ mtx' = "susp" /\ spc' = "cas"
 SCas == spc = "cas" /\ state' = (IF state = "running" THEN "pre_sleep" ELSE state)
         /\ mtx' = "free" /\ spc' = "spin"
         /\ UNCHANGED <<queue, otherq, wpc, waiting, rpc, subpc, submitted, ran>>
-SSpin == spc = "spin" /\ state # "pre_sleep" /\ spc' = "done"
+SSpin == spc = "spin" /\ (state # "pre_sleep" \/ Variant = "suspend_returns_in_pre_sleep") /\ spc' = "done"
          /\ UNCHANGED <<state, mtx, queue, otherq, wpc, waiting, rpc, subpc, submitted, ran>>
 \* worker
 WRun == wpc = "loop" /\ queue > 0 /\ queue' = queue - 1 /\ ran' = ran + 1
